@@ -54,9 +54,14 @@ def schema_case(draw):
         plan = {"dialect": dialect, "method": "post", "path": "/t/{p}" if loc == "path" else "/t", "params": [p], "bodies": [], "body_required": True, "schemas": {}, "security": None}
     if draw(st.integers(0, 7)) == 0:
         # formats whose checker accepts the empty string (the minimal draw of a negation strategy) and a few more
-        fmt, wit = draw(st.sampled_from([("regex", "a+b"), ("uri-reference", "/a/b?x=1"), ("uri-template", "/items/{id}"), ("iri-reference", "/é"), ("time", "12:00:00Z"), ("duration", "P1D"), ("idn-email", "a@b.example"), ("json-pointer", "/a/0")]))
+        fmt, wit = draw(st.sampled_from([("regex", "a+b"), ("uri-reference", "/a/b?x=1"), ("uri-template", "/items/{id}"), ("iri-reference", "/é"), ("time", "12:00:00Z"), ("idn-email", "a@b.example"), ("json-pointer", "/a/0")]))
         target = plan["bodies"][0] if plan["bodies"] else plan["params"][0]
         target["schema"], target["witness"] = {"type": "string", "format": fmt}, wit
+    elif loc == "body" and draw(st.integers(0, 9)) == 0:
+        # an array whose only keywords are type / items / minItems, with formatted string items
+        fmt, wit = draw(st.sampled_from([("date", "2024-02-29"), ("date-time", "2024-02-29T12:00:00Z"), ("email", "a@b.example"), ("uuid", "123e4567-e89b-12d3-a456-426614174000")]))
+        n = draw(st.integers(1, 2))
+        plan["bodies"][0]["schema"], plan["bodies"][0]["witness"] = {"type": "array", "minItems": n, "items": {"type": "string", "format": fmt}}, [wit] * n
     plan["access"] = "lookup"
     if loc != "path":
         plan["extra_methods"] = draw(st.lists(st.sampled_from(["get", "delete", "put"]), max_size=2, unique=True))
@@ -189,6 +194,10 @@ def classify(direction, fam, schema, value, root, dialect, loc) -> str:
             return "positive-invalid:numeric-exclusive-bound"
         if "zero-bound" in feats and {"minimum", "maximum", "minLength", "maxLength", "minItems", "maxItems"} & set(kws):
             return "positive-invalid:bound-equal-to-zero-treated-as-absent"
+        if kws[:3] == ["format"]:
+            # which format is ignored is the root cause (the boundary generator has no strategy of its own for some of them)
+            fmts = sorted({sub.get("format") for kw, sub, _i in leafs if kw == "format" and isinstance(sub.get("format"), str)})
+            return "positive-invalid:format:" + ("+".join(fmts) if fmts else "?")
         return "positive-invalid:" + "+".join(kws[:3])
     # negative-valid
     if fam.startswith("Incorrect type"):
